@@ -117,3 +117,35 @@ Definition C05_prune_keeps_live_guarded : Prop :=
   forall c ops, cfg_valid c = true -> ops_valid c init_mstate ops = true ->
     linear_fresh c init_mstate ops = true ->
     live_readable c (mrun c ops).
+
+(** ---- the same guard on the INPUTS only: every writing commit produces an
+    abstract state that no earlier commit of the history had (this implies a
+    fresh root: equal roots have equal contents) ---- *)
+Fixpoint smap_eqb (a b : smap) : bool :=
+  match a, b with
+  | [], [] => true
+  | (k, v) :: a', (k', v') :: b' => beq k k' && beq v v' && smap_eqb a' b'
+  | _, _ => false
+  end.
+
+Definition op_linear_changing (s : mstate) (o : mop) : bool :=
+  match o with
+  | MPrune _ => true
+  | MCommit H p memset kvs =>
+      onat_eqb p (tip_index (ms_ac s)) &&
+      match kvs with
+      | [] => true
+      | _ => negb (existsb (fun a => smap_eqb (ac_state a) (apply_writes (state_of (ms_ac s) p) kvs)) (ms_ac s))
+      end
+  end.
+
+Fixpoint linear_changing (c : cfg) (s : mstate) (ops : list mop) : bool :=
+  match ops with
+  | [] => true
+  | o :: tl => op_linear_changing s o && linear_changing c (mstep c s o) tl
+  end.
+
+Definition C05_prune_keeps_live_changing : Prop :=
+  forall c ops, cfg_valid c = true -> ops_valid c init_mstate ops = true ->
+    linear_changing c init_mstate ops = true ->
+    live_readable c (mrun c ops).
